@@ -415,4 +415,8 @@ class ObjectCodeGenerator:
         self._context.reached_dummy = False
 
         self._data.serialize.add_line("writer.add_byte(0xFF)")
+        if self._data.declared_reached_missing_optional:
+            # Optional fields of the next chunk start over, also when the next assignment accumulates
+            # (an optional field that follows a switch whose case contains an optional field).
+            self._data.serialize.add_line("reached_missing_optional = False")
         self._data.deserialize.add_line("reader.next_chunk()")
